@@ -213,7 +213,45 @@ def cuboid(run, funcs, pid):
                         run.violation('%s: %s' % (tag, bad), engine.save_replay(pid, pl))
                     else:
                         run.suspect.append('%s axis %d: grid-map counterexample %r does not reproduce natively' % (tag, ax, pl))
+                # resolution: the box itself spans at least a fifth of the grid range along every axis (so that the grid resolves
+                # 2^-52 x 5 box widths whatever the other axes look like - anisotropic boxes, unit dummy axes of 1D / 2D)
+                vv, m = run.prove('%s axis %d: the box spans at least 1/5 of the integer-grid range (resolution independent of the other axes)' % (tag, ax),
+                                  H, z3.Not(W * to_z3(giw.items[ax]) * 5 >= 1), timeout=30, cross=False, on_sat='caller')
+                if vv == 'sat':
+                    pl = {'kind': 'grid_resolution', 'dim': dim, 'periodic': periodic, 'axis': ax}
+                    bad = check_grid_resolution_native(pl)
+                    if bad:
+                        run.violation('%s: %s' % (tag, bad), engine.save_replay(pid, pl))
+                    else:
+                        run.suspect.append('%s axis %d: grid resolution counterexample does not reproduce natively' % (tag, ax))
             side_obligations(run, tag, st, pre)
+
+
+def check_grid_resolution_native(p, profile='debug'):
+    """grid coordinates of the two ends of the box along each active axis, for anisotropic boxes (as build_internal hands them to cuboid:
+    unused axes normalised to anchor -0.5, width 1)"""
+    d = DIMN[p['dim']]
+    per = 1 if p['periodic'] else 0
+    for width in ((1e-3, 7.0, 0.25), (3.0, 1e-4, 1e2), (1e-6, 1e-6, 1e-6), (5.0, 5.0, 1e-5)):
+        a = [0.25, -3.0, 10.0]
+        w = list(width)
+        for k in range(3):
+            if k >= d:
+                a[k], w[k] = -0.5, 1.0
+        for prof in ('debug', 'release'):
+            lines = []
+            for end in (0.0, 1.0):
+                loc = [a[k] + end * w[k] * (1 - 1e-12 if end else 1) for k in range(3)]
+                lines.append('iloc %d %d %s %s %s' % (d, per, ' '.join(engine.f2s(v) for v in a), ' '.join(engine.f2s(v) for v in w), ' '.join(engine.f2s(v) for v in loc)))
+            o = engine.native(lines, prof)
+            if o[0][0] != 'ok' or o[1][0] != 'ok':
+                return 'iloc panics for a corner of the box'
+            for k in range(d):
+                span = int(o[1][1 + k]) - int(o[0][1 + k])
+                if span < 2 ** 52 / (13.5 if per else 5.5):      # periodic: the tripled box spans a quarter of the range, the box itself a twelfth
+                    return ('box anchor %r width %r (%s, %s): along axis %d the two ends of the box are only %d grid units apart (2^52 / %.3g): the integer grid does not '
+                            'resolve the box along that axis [%s build]' % (a, w, p['dim'], 'periodic' if per else 'reflective', k, span, 2 ** 52 / max(span, 1), prof))
+    return None
 
 
 def check_gridmap_native(p, profile='debug'):
@@ -577,6 +615,10 @@ def _face_centroid_one(a, profile):
 
 
 def replay(d):
+    if d.get('kind') == 'grid_resolution':
+        bad = check_grid_resolution_native(d)
+        print(bad)
+        return 1 if bad else 0
     if d.get('kind') == 'intersect_guard':
         bad = check_intersect_guard_native(d)
         print(bad)
